@@ -61,12 +61,13 @@ func initTLS() {
 // ---- simulated IP network ---------------------------------------------------------
 
 const (
-	ipUp        = iota // something listens on every port of the address
-	ipRefused          // host up, nothing listens
-	ipBlackhole        // packets vanish
+	ipUp          = iota // something listens on every port of the address
+	ipRefused            // host up, nothing listens
+	ipBlackhole          // packets vanish
+	ipRefusedOnce        // refuses the next connection attempt, then is up
 )
 
-var ipStateNames = []string{"up", "refused", "blackhole"}
+var ipStateNames = []string{"up", "refused", "blackhole", "refused-once"}
 
 // attempt is one connection attempt the network saw.
 type attempt struct {
@@ -371,7 +372,13 @@ func (n *simNet) dial(tag string, d *net.Dialer, ctx context.Context, network, a
 			last = cerr
 			continue
 		}
-		switch n.stateOf(ip) {
+		st := n.stateOf(ip)
+		if st == ipRefusedOnce {
+			n.setState(ip, ipUp)
+			st = ipRefused
+			n.r.Fault("conn_refused_once")
+		}
+		switch st {
 		case ipRefused:
 			n.note(ctx, attempt{started: started, tag: tag, via: addr, ip: ip, port: port, network: nw, outcome: "refused"})
 			last = errors.New("connect: connection refused")
